@@ -32,6 +32,10 @@ type Config struct {
 	// iteration order of a map
 	OptsVia string `json:"opts_via,omitempty"`
 	TypoSubs    bool   `json:"typographer_subs,omitempty"` // custom substitutions (only with Typographer)
+	// TypoAll: with TypoSubs, EVERY punctuation of the typographer gets a substitution of its
+	// own (a map with eleven entries: whatever one entry does to another shows in some order of
+	// the map's iteration)
+	TypoAll bool `json:"typographer_all_subs,omitempty"`
 	LinkifyOpt  string `json:"linkify_opt,omitempty"`      // "", "protocols", "regexp" (only with GFM)
 	Unsafe      bool   `json:"unsafe,omitempty"`
 	XHTML       bool   `json:"xhtml,omitempty"`
@@ -72,7 +76,8 @@ func (c Config) Key() string {
 		b.WriteString("optsvia=" + c.OptsVia + ",")
 	}
 	f(c.Typographer, "typographer")
-	f(c.Typographer && c.TypoSubs, "typosubs")
+	f(c.Typographer && c.TypoSubs && !c.TypoAll, "typosubs")
+	f(c.Typographer && c.TypoSubs && c.TypoAll, "typosubs=all")
 	if c.GFM && c.LinkifyOpt != "" {
 		b.WriteString("linkify=" + c.LinkifyOpt + ",")
 	}
@@ -204,7 +209,12 @@ func (c Config) Build() goldmark.Markdown {
 		}
 	}
 	if c.Typographer {
-		if c.TypoSubs {
+		if c.TypoSubs && c.TypoAll {
+			exts = append(exts, extension.NewTypographer(extension.WithTypographicSubstitutions(map[extension.TypographicPunctuation]string{
+				extension.LeftSingleQuote: "&sbquo;", extension.RightSingleQuote: "&rsquo;<!--r-->", extension.LeftDoubleQuote: "&laquo;", extension.RightDoubleQuote: "&raquo;",
+				extension.EnDash: "&ndash;<!--n-->", extension.EmDash: "&mdash;<!--m-->", extension.Ellipsis: "&hellip;<!--e-->", extension.LeftAngleQuote: "&lsaquo;",
+				extension.RightAngleQuote: "&rsaquo;", extension.Apostrophe: "&apos;<!--a-->"})))
+		} else if c.TypoSubs {
 			exts = append(exts, extension.NewTypographer(extension.WithTypographicSubstitutions(map[extension.TypographicPunctuation]string{
 				extension.LeftDoubleQuote: "&laquo;", extension.RightDoubleQuote: "&raquo;", extension.LeftSingleQuote: "&sbquo;", extension.EmDash: "--"})))
 		} else {
@@ -322,6 +332,7 @@ func genConfig(r *Rng, mode string) Config {
 	}
 	if c.Typographer && ro.Chance(1, 4) {
 		c.TypoSubs = true
+		c.TypoAll = ro.Split("typo-all").Chance(1, 2)
 	}
 	c.AutoID = r.Chance(1, 2)
 	c.Attribute = r.Chance(1, 3)
@@ -389,6 +400,7 @@ func configVariant(r *Rng, c Config, c15 bool) Config {
 		case 2:
 			if c.Typographer {
 				v.TypoSubs = !v.TypoSubs
+				v.TypoAll = v.TypoSubs && r.Chance(1, 2)
 			}
 		case 3:
 			if c.GFM {
